@@ -393,7 +393,7 @@ _ALPHABETS = [
     "\ufeff\u200b\u2028\u0301\u00a0\u200d",
 ]
 # strings whose interesting character sits at a particular position (decoders that strip/normalise)
-SPECIAL_STRINGS = ["\ufeff", "\ufeffabc", "a\ufeff", "\ufeff\ufeff", " \t", "abc ", "\u0301a", "a\u0000b", "\U0010ffff", "\ud7ff\ue000", "\u00e9", "e\u0301", "\r\n", "\x85", "\u2028x"]
+SPECIAL_STRINGS = ["$", "$$", "${n}", "$n $$ ${left}", "{}", "{0}", "%s", "%(x)s", "\\1", "#{x}", "\ufeff", "\ufeffabc", "a\ufeff", "\ufeff\ufeff", " \t", "abc ", "\u0301a", "a\u0000b", "\U0010ffff", "\ud7ff\ue000", "\u00e9", "e\u0301", "\r\n", "\x85", "\u2028x"]
 
 
 def rand_string(rnd, maxlen: int = 8) -> str:
